@@ -84,6 +84,8 @@ void do_plan(int tier)
         plan.ops[t][i].b = (uint8_t)sim_plan(8);  // 20..90 stamps
     }
   }
+  // drawn last: clock readings taken by different threads may tie (the shipped stamps do not read a clock at all)
+  sim_set_clock_ties(sim_plan(3) == 2);
 }
 void check()
 {
